@@ -8,7 +8,8 @@ cause -> ChangingRegistry.get_handlers for a registry with one handler of every 
 Part 2 (histories, closed loop): every history to depth d over objects with and without a spec
 (an object whose essence is empty is a legal object) with one handler of every kind and a raw-event
 probe; every change-handler invocation is compared with the cause the reference assigns to the
-event being processed (from the view the probe saw), and with the server-side state.
+event being processed (from the view the probe saw), and with the server-side state; resume handlers
+only at the first sight of an object found by the initial listing.
 """
 from __future__ import annotations
 
@@ -276,9 +277,10 @@ def run(tier: str, seed: int) -> CheckResult:
              "stored last-handled {none, empty, equal, different} x essence {empty, non-empty} x first-sight (1024 rows) on "
              "detect_changing_cause + ChangingRegistry.get_handlers; part 2: every history to depth 3/4 over {spec, label, unlabel, "
              "status, delete, restart, foreign finalizer add/remove} for an object with a spec and for a bare object (empty "
-             "essence), one handler of every kind + a raw-event probe, in the closed loop; timing group adds kills and deviations; "
+             "essence), created while the operator runs or found unhandled by its initial listing, one handler of every kind + a raw-event probe, in the closed loop; timing group adds kills and deviations; "
              "non-trivial = outcome differs from the scenario's default schedule",
-        assumptions=["first-sight (resume vs. no-op) is not judged here (C14); an event without essential difference may only invoke resume handlers",
+        assumptions=["first sight: a resume handler may only run for an object the process found in its initial listing, and not on a later event that carries "
+                     "no unfinished progress (judged on executions without kills, faults or API latency); 'exactly once' is C14's subject",
                      "essence reference: body minus apiVersion/kind/status and all metadata except labels and non-kopf annotations"])
 
 
